@@ -442,6 +442,13 @@ carquet_status_t carquet_read_data_page_v1(
                 ptr++;
                 remaining--;
 
+                /* Dictionary indices are 32-bit: the format caps the width at
+                 * 32, and the decoders shift by it */
+                if (bit_width > 32) {
+                    CARQUET_SET_ERROR(error, CARQUET_ERROR_DECODE, "Dictionary index bit width above 32");
+                    return CARQUET_ERROR_DECODE;
+                }
+
                 /* Use reusable indices buffer to avoid per-page allocation */
                 uint32_t* indices;
                 if ((size_t)non_null_count <= reader->indices_capacity) {
